@@ -4,6 +4,7 @@ package props
 
 import (
 	"math"
+	"unicode"
 
 	"pgregory.net/rapid"
 )
@@ -36,9 +37,13 @@ func genText(t *rapid.T, allowEmpty, edge bool) string {
 			return rapid.SampledFrom(textEdgeBlank).Draw(t, "edge")
 		}
 		return "f"
-	default:
+	case w < 95:
 		// concatenation of two pieces
 		return rapid.SampledFrom(textWords).Draw(t, "w1") + rapid.SampledFrom(textUnicode).Draw(t, "u2")
+	default:
+		// arbitrary Unicode letters, marks, numbers, punctuation and symbols (no whitespace or control
+		// characters: the package documents trimming/condensing for those), 1..6 runes
+		return rapid.StringOfN(rapid.RuneFrom(nil, unicode.L, unicode.M, unicode.N, unicode.P, unicode.S), 1, 6, -1).Draw(t, "anyunicode")
 	}
 }
 
